@@ -309,7 +309,8 @@ func F5(maxLen int, variants []string) []*Case {
 
 func F6(maxSize, maxLen int, variants []string) []*Case {
 	s := &Spec{
-		Leaves: func() []*ag.Expr { return []*ag.Expr{lit("a"), lit("b"), ag.Action()} },
+		// one multi-byte and one ASCII terminal: rune offsets differ from byte offsets
+		Leaves: func() []*ag.Expr { return []*ag.Expr{lit("é"), lit("b"), ag.Action()} },
 		Unary:  []ag.Kind{ag.Opt, ag.Star, ag.Plus, ag.And, ag.Not, ag.Cap},
 		Seq:    true, Alt: true, AltEmpty: false, MaxArity: 3,
 	}
@@ -324,7 +325,7 @@ func F6(maxSize, maxLen int, variants []string) []*Case {
 		if !wellFormed(g) {
 			continue
 		}
-		out = append(out, &Case{Family: "F6", G: g, Sigma: strs('a', 'b', 'c'), MaxLen: maxLen, Variants: variants, Mode: spec.ModeBehaviour, Print: idx%7 == 0})
+		out = append(out, &Case{Family: "F6", G: g, Sigma: []string{"é", "b", "c"}, MaxLen: maxLen, Variants: variants, Mode: spec.ModeBehaviour, Print: idx%7 == 0})
 	}
 	return out
 }
@@ -429,6 +430,67 @@ func Hostile(cases []*Case, maxLen int, variants []string) []*Case {
 		g := c.G.Clone()
 		g.ID = "H/" + g.ID
 		out = append(out, &Case{Family: "H-" + c.Family, G: g, Sigma: hexAll(HostileBytes), Hex: true, MaxLen: maxLen, Variants: variants, Mode: spec.ModeHostile})
+	}
+	return out
+}
+
+// ---------------------------------------------------------------- F11: mutually recursive rules with choices
+
+// F11 enumerates grammars S, E, R, T whose bodies are choices of 2-3 alternatives that refer to
+// each other at left and inner positions (never left-recursively): the first sets the -switch
+// optimiser needs depend on rules that are still being analysed when they are first reached.
+func F11(poolN, maxLen int, variants []string) []*Case {
+	type altMk func(y, z string) *ag.Expr
+	pool := []altMk{
+		func(y, z string) *ag.Expr { return ag.S(lit("a"), ag.N(y), lit("b")) },
+		func(y, z string) *ag.Expr { return ag.S(ag.N(y), lit("d")) },
+		func(y, z string) *ag.Expr { return ag.S(lit("b"), ag.N(z), lit("a")) },
+		func(y, z string) *ag.Expr { return lit("c") },
+		func(y, z string) *ag.Expr { return ag.S(ag.N(z), lit("c")) },
+		func(y, z string) *ag.Expr { return ag.S(lit("a"), lit("d")) },
+		func(y, z string) *ag.Expr { return lit("d") },
+	}
+	if poolN < len(pool) {
+		pool = pool[:poolN]
+	}
+	// all ordered sub-lists (in pool order) of size 2 and 3
+	var bodies [][]int
+	for i := range pool {
+		for j := i + 1; j < len(pool); j++ {
+			bodies = append(bodies, []int{i, j})
+			for k := j + 1; k < len(pool); k++ {
+				bodies = append(bodies, []int{i, j, k})
+			}
+		}
+	}
+	names := []string{"E", "R", "T"}
+	mkBody := func(b []int, self int) *ag.Expr {
+		y, z := names[(self+1)%3], names[(self+2)%3]
+		var alts []*ag.Expr
+		for _, k := range b {
+			alts = append(alts, pool[k](y, z))
+		}
+		return ag.A(alts...)
+	}
+	var out []*Case
+	idx := 0
+	for _, be := range bodies {
+		for _, br := range bodies {
+			for _, bt := range bodies {
+				nd := func() *ag.Expr { return ag.U(ag.Not, ag.D()) }
+				g := ag.G(fmt.Sprintf("F11/%d", idx),
+					ag.Rule{Name: "S", Body: ag.A(ag.S(ag.N("E"), nd()), ag.S(ag.N("T"), nd()), ag.S(ag.N("R"), lit("b"), nd()))},
+					ag.Rule{Name: "E", Body: mkBody(be, 0)},
+					ag.Rule{Name: "R", Body: mkBody(br, 1)},
+					ag.Rule{Name: "T", Body: mkBody(bt, 2)})
+				idx++
+				g.Number()
+				if !wellFormed(g) {
+					continue
+				}
+				out = append(out, &Case{Family: "F11", G: g, Sigma: strs('a', 'b', 'c', 'd'), MaxLen: maxLen, Variants: variants, Mode: spec.ModeBehaviour})
+			}
+		}
 	}
 	return out
 }
